@@ -136,8 +136,7 @@ def _tokenrefs(repo, rep):
                       where=L.where(g))
     # Compiler.visit: last of adjacent refs
     v = repo.func(CC + "visit")
-    text = " ".join(src(s) for s in ast.walk(v.node)
-                    if isinstance(s, ast.stmt))
+    text = L.text(v.node)
     rep.check("if key is TokenRef: nodes = [nodes[-1]]" in text, "R12.1",
               v.qualname, "of adjacent references the last one (the "
               "innermost expression about to run) is kept",
@@ -162,8 +161,7 @@ def _tokenrefs(repo, rep):
           and n.name == "visit_TokenRef"]
     ok = False
     if vt:
-        t = " ".join(src(s) for s in ast.walk(vt[0])
-                     if isinstance(s, ast.stmt))
+        t = L.text(vt[0])
         ok = "self.tokens.append((node.token.pos, len(node.token)))" in t \
             and "ast.Assign([store('__token')], ast.Constant(node.token.pos))" \
             in t
@@ -240,8 +238,7 @@ def _source_identity(repo, rep):
                       stored, tok))
     # Compiler re-slices from its source parameter with the recorded pairs
     init = repo.func(CC + "__init__")
-    text = " ".join(src(s) for s in ast.walk(init.node)
-                    if isinstance(s, ast.stmt))
+    text = L.text(init.node)
     rep.check("Token(source[pos:pos + length], pos, source)" in text and
               "in generator.tokens" in text, "R12.2",
               init.qualname, "the token table is built by slicing "
@@ -268,7 +265,7 @@ def _extent(repo, rep):
                 "decode_htmlentities(string)" in src(n.value):
             sites.append((ip, n, "interpolation-candidate"))
     dh = repo.func("chameleon.utils.decode_htmlentities")
-    text = " ".join(src(s) for s in dh.node.body)
+    text = L.text(dh.node, body_only=True)
     keeps_pos_only = "string.replace(string, decoded)" in text
     for f, n, what in sites:
         rep.check(not keeps_pos_only, "R12.2b", f.qualname,
@@ -319,8 +316,7 @@ def _retype(repo, rep):
                   "R12.3", site, "the new class is derived from the original "
                   "class and RenderError", construct="retype-args", where=wh,
                   detail=str(a))
-        text = " ".join(src(s) for s in ast.walk(deco)
-                        if isinstance(s, ast.stmt))
+        text = L.text(deco)
         rep.check("raise_with_traceback(exc, tb)" in text, "R12.3", site,
                   "the decorated exception keeps the original traceback",
                   construct="traceback", where=wh)
@@ -495,8 +491,7 @@ def _formatted(repo, rep):
               "and the original class wins method resolution",
               construct="bases", where=wh,
               detail=src(calls[0].args[1]) if calls else "no type() call")
-    text = " ".join(src(s) for s in ast.walk(f.node)
-                    if isinstance(s, ast.stmt))
+    text = L.text(f.node)
     rep.check("BaseException.__init__(inst, *exc.args)" in text, "R12.5",
               site, "the original arguments are copied", construct="args",
               where=wh)
